@@ -342,6 +342,18 @@ theorem monotone_ubuntu_partial (p p' : Pkg) (v : Vuln) (v1 v1' : VerDeb.Version
 theorem apk_compare_loop_eq_stream (a b : Str) : VerApk.compareLoop a b = VerApk.compare a b :=
   VerApk.compareLoop_eq_compare a b
 
+/-- The model bounds a version's token stream by `2·len + 4` tokens; the bound
+    is never reached (each `getToken` ends the stream or lowers
+    `2·unread + [type is DIGIT/DIGIT_OR_ZERO]`): every larger bound gives the same stream. -/
+theorem apk_token_bound_unreachable (ver : Str) (n : Nat) (h : 2 * ver.length + 4 ≤ n) :
+    VerApk.toks n { rest := ver } .digit = VerApk.tokens ver :=
+  VerApk.tokens_bound_unreachable ver n h
+
+/-- `Valid(ver)` holds exactly when the version's token stream ends with `END`. -/
+theorem apk_valid_iff_stream_ends (ver : Str) :
+    VerApk.valid ver = true ↔ (VerApk.tokens ver).getLast? = some (.tEnd, 0) :=
+  VerApk.valid_iff_ends ver
+
 /-- go-apk-version's comparison is a total preorder on **all** strings, valid or not. -/
 theorem apk_cmp_totalPre : TotalPre VerApk.compareLoop := by
   have : VerApk.compareLoop = VerApk.compare := by
